@@ -15,6 +15,12 @@ correspondence: EXHAUSTIVE sweep of the real API against the model (drv_grammar)
                 last child; put there by check_grammar=False, appendChild, insertBefore, or by load() from a written package), after a
                 legal sibling, after a text node, after a removal; outcomes and childNodes are compared with the model, the decisions with
                 the schema, and the content.xml written afterwards is read back with expat.
+                The VALUE and the TEXT as dimensions (attr_values / text_strings): every refused keyword again with None, '', 0, False,
+                numbers, bytes, a list, an element (setAttribute, **kwargs, attributes=, factory): AttributeError whatever the value;
+                every element x ~50 strings (empty, XML white space, every Unicode space/separator, invisible characters, mixtures)
+                x {addText, addCDATA, text=, cdata=, unchecked}: a string with a character that is not XML white space is character
+                data - accepted and kept iff the schema gives the element character data, else IllegalText and nothing added.
+                The model decides from (check, element[, keyword]) alone, so its answer is the expected one for every value / string.
 oracle:         the same observed decisions against the schema's answer (Lean semantics via the driver, cross-checked
                 by an independent Python reading of the .rng files in this file): a difference that is neither an
                 Exception nor a known finding is a violation, named by its row.
@@ -227,6 +233,93 @@ def classify(exc):
     return 'Other:' + type(exc).__name__
 
 
+# ---------------------------------------------------------------------------------------------------------------------
+# the value handed to setAttribute / the string handed to addText as dimensions of the sweeps
+# ---------------------------------------------------------------------------------------------------------------------
+XML_WS = u' \t\r\n'          # the four characters XML (and RELAX NG, between elements) treats as white space
+
+
+def odd_values(Element, Q, EN):
+    """(label, value) - what a caller may hand over instead of a string"""
+    sty = [i for i, n in enumerate(EN) if n == 'style:style']
+    q = Q[sty[0]] if sty else Q[0]
+    return [('None', None), ("u''", u''), ('0', 0), ('False', False), ('True', True), ('1', 1), ('2.5', 2.5), ("b''", b''),
+            ("b'1'", b'1'), ('[]', []), ('an element <%s>' % (EN[sty[0]] if sty else EN[0]), Element(qname=q, check_grammar=False))]
+
+
+def attr_value_call(Element, qname, route, kw, value, factory=None):
+    """-> (outcome, attributes left behind): outcome A = AttributeError, ok = returned, X<class> = another exception"""
+    el = None
+    try:
+        if route == 'setAttribute':
+            el = Element(qname=qname, check_grammar=False)
+            el.setAttribute(kw, value)
+        elif route == '**kwargs':
+            el = Element(qname=qname, check_grammar=False, **{kw: value})
+        elif route == 'attributes=':
+            el = Element(qname=qname, check_grammar=False, attributes={kw: value})
+        elif route == 'factory':
+            el = factory(check_grammar=False, **{kw: value})
+        o = 'ok'
+    except AttributeError:
+        o = 'A'
+    except Exception as ex:
+        o = 'X' + type(ex).__name__
+    left = sorted(el.attributes) if (el is not None and route == 'setAttribute') else []
+    return o, left
+
+
+def text_strings(rng):
+    """(label, string): empty, XML white space, every other Unicode space / separator / str.isspace() character, invisible
+    format characters, mixtures (fixed and drawn), strings with a letter"""
+    import unicodedata
+    lab = lambda s: ' '.join('U+%04X' % ord(c) for c in s) or 'the empty string'
+    out = [u'', u' ', u'\t', u'\n', u'\r', u' \t\r\n ', u'\n  ']
+    singles = []
+    for cp in range(0x10000):
+        if 0xD800 <= cp <= 0xDFFF:
+            continue
+        ch = chr(cp)
+        if ch in XML_WS:
+            continue
+        if ch.isspace() or unicodedata.category(ch) in ('Zs', 'Zl', 'Zp'):
+            singles.append(ch)
+    singles += [u'\u200b', u'\u2060', u'\ufeff', u'\u180e', u'\u00ad', u'\u200e']       # invisible, not spaces to anybody
+    out += singles
+    out += [u' \u00a0 ', u'\n\u3000\t', u'\u2003\u2003', u'\u2009\u200a\u202f', u'\u001c\u001d\u001e\u001f', u'\u0085\n', u'\u00a0\u00a0\u00a0',
+            u'x', u' x ', u'\u00a0x', u'0']
+    for _ in range(4):
+        n = rng.randint(2, 6)
+        s = u''.join(rng.choice(singles[:-6] + list(XML_WS)) for _ in range(n))
+        if all(c in XML_WS for c in s):
+            s += rng.choice(singles[:-6])
+        out.append(s)
+    seen, res = set(), []
+    for s in out:
+        if s not in seen:
+            seen.add(s); res.append((lab(s), s))
+    return res
+
+
+def text_string_call(Element, qname, route, check, s):
+    """-> (outcome, [(nodeType, data) of the children afterwards])"""
+    el = None
+    try:
+        if route in ('text=', 'cdata='):
+            el = Element(qname=qname, check_grammar=False, **{route[:-1]: s})
+        else:
+            el = Element(qname=qname, check_grammar=False)
+            if check:
+                getattr(el, route)(s)
+            else:
+                getattr(el, route)(s, check_grammar=False)
+        o = 'ok'
+    except Exception as ex:
+        o = 'err ' + classify(ex)
+    nodes = [(k.nodeType, getattr(k, 'data', None)) for k in el.childNodes] if el is not None else []
+    return o, nodes
+
+
 class Sweep(object):
     def __init__(self, chk, V, drv):
         self.chk, self.V, self.drv = chk, V, drv
@@ -394,6 +487,7 @@ class Sweep(object):
         for e in range(V.n):
             lines += ['text 1 %d' % e, 'cdata 1 %d' % e, 'text 0 %d' % e, 'cdata 0 %d' % e]
         ans = drv.batch(lines)
+        self.model_text = ans
         for e in range(V.n):
             if e in self.dead:
                 self.first_text.append(None); continue
@@ -488,6 +582,7 @@ class Sweep(object):
         model = drv.batch('setrow 1 %d' % e for e in range(V.n))
         thorough = chk.tier == 'thorough'
         model_off = drv.batch('setrow 0 %d' % e for e in range(V.n))
+        self.model_attrs = model
         for e in range(V.n):
             if e in self.dead:
                 self.first_attrs.append([]); continue
@@ -598,6 +693,150 @@ class Sweep(object):
         chk.count('values_without_accepted_candidate', sum(1 for v in self.values.values() if v is None))
         if self.unresolved:
             chk.notes.append('setAttribute accepted the keyword but no probe value, and getAttribute() did not single out the attribute: %s' % ', '.join(self.unresolved[:20]))
+
+    # ---- setAttribute: the VALUE as a dimension of the keyword sweep
+    def attr_values(self):
+        """`Setting an attribute by keyword succeeds iff the schema permits it for that element; a refusal raises AttributeError`
+        speaks of the element and the keyword only: for a keyword that is refused, the refusal must not depend on the VALUE
+        handed over.  For every element, a set of refused keywords (the made-up ones, keywords other elements have - drawn; in the
+        thorough tier every keyword) is given again with each of odd_values() (None, '', 0, False, numbers, bytes, a list, an element)
+        through setAttribute, the constructor's **kwargs and attributes= and the element's factory function.  Which keywords are
+        refused is what the attributes() sweep OBSERVED with a string value (and judged against the schema, row by row); here every
+        other value must be refused with AttributeError as well and leave no attribute behind.  Model: OdfModel.GrammarApi.setAttribute
+        decides from (check, element, keyword) alone, so its answer `A` is the expected outcome for every value (correspondence)."""
+        chk, V, Element = self.chk, self.V, self.Element
+        Q = V.G.elems.items; KN = V.KN
+        thorough = chk.tier == 'thorough'
+        values = odd_values(Element, Q, V.EN)
+        kidx = dict((k, i) for i, k in enumerate(KN))
+        bogus = [kidx[b] for b in tg.BOGUS_KEYWORDS if b in kidx]
+        factory_of = {}
+        for mn, fn, q, note in V.G.factories:
+            if q is not None and q not in factory_of:
+                factory_of[q] = (mn, fn)
+        ncalls = 0
+        for e in self.live:
+            row = self.first_attrs[e]
+            if not row:
+                continue
+            m = self.model_attrs[e].split()[1:]
+            sat = V.S[e]['at']
+            permitted_kw = set(V.G.attr_kw[a] for a in sat if a != -1)
+            refused = [k for k in range(V.nk) if row[k] == 'A' and KN[k] != 'parent']
+            if not refused:
+                continue
+            if thorough:
+                ks = [k for k in bogus if k in refused] + [k for k in refused if k not in bogus]
+            else:
+                rest = [k for k in refused if k not in bogus]
+                ks = [k for k in bogus if k in refused] + chk.rng.sample(rest, min(9, len(rest)))
+            fac = None
+            if e in factory_of:
+                try:
+                    fac = getattr(importlib.import_module('odf.' + factory_of[e][0]), factory_of[e][1])
+                except Exception:
+                    fac = None
+            for j, k in enumerate(ks):
+                kw = KN[k]
+                routes = ['setAttribute']
+                if j < 4:
+                    routes += ['**kwargs', 'attributes=']
+                    # the factory is only a route when it refuses the keyword for an ordinary value itself
+                    if fac is not None and attr_value_call(Element, Q[e], 'factory', kw, u'1', fac)[0] == 'A':
+                        routes.append('factory')
+                # thorough tier: every refused keyword with None, '' and 0; the full value list for the first 40 of them
+                for label, v in (values if (not thorough or j < 40) else values[:3]):
+                    for route in routes:
+                        o, left = attr_value_call(Element, Q[e], route, kw, v, fac)
+                        ncalls += 1
+                        chk.corr()
+                        if o != m[k]:
+                            chk.corr_diff({'op': 'setAttribute-value', 'element': V.EN[e], 'keyword': kw, 'value': label, 'route': route}, o, m[k],
+                                          'a keyword the model refuses (A = AttributeError), given with a value that is not a string')
+                        if o != 'A' or left:
+                            chk.count('refusal_depends_on_value')
+                            if self.cap('attr-value'):
+                                want = (-1 in sat) or (k in permitted_kw)
+                                chk.fail('value:attrs:%s@%s' % (V.EN[e], kw),
+                                         {'op': 'setAttribute-value', 'element': V.EN[e], 'keyword': kw, 'value': label, 'route': route},
+                                         '%s on <%s> with keyword %r: refused with AttributeError for a string value, but with the value %s: %s%s; '
+                                         'the schema %s an attribute of that keyword on <%s>, whatever its value' % (
+                                             route, V.EN[e], kw, label, {'ok': 'accepted'}.get(o, o), ' (attributes left behind: %r)' % (left,) if left else '',
+                                             'permits' if want else 'does not permit', V.EN[e]))
+            chk.case(('attr-values', e), nontrivial=V.S[e]['elem'],
+                     sample={'element': V.EN[e], 'refused_keywords_tried': [KN[k] for k in ks[:5]], 'values': [l for l, _ in values]} if e % 173 == 0 else None)
+        chk.count('setAttribute_value_calls', ncalls)
+
+    # ---- addText / addCDATA / text= / cdata=: the TEXT as a dimension of the text sweep
+    def text_strings(self):
+        """The schema's content models either have character data or have none; to the schema a NO-BREAK SPACE, an IDEOGRAPHIC SPACE,
+        a LINE SEPARATOR or U+001C are characters like any other.  Only text made of the four XML white space characters (and the
+        empty string) is `no character data` to a RELAX NG validator.  For every element and every string of text_strings()
+        (empty, each XML white space character, every Unicode space/separator/str.isspace() character, invisible format characters,
+        mixtures, drawn mixtures, strings with a letter): addText, addCDATA, text=, cdata= with checks on, addText/addCDATA with
+        check_grammar=False.
+        oracle: a string with at least one character that is not XML white space is character data: accepted (and kept, node data
+        == the string) iff the schema gives the element character data, else IllegalText and no node; unchecked it goes through
+        and is kept.  Strings of XML white space only / the empty string: either of the two outcomes is tolerated (refused with
+        IllegalText and nothing added; or accepted), nothing else.
+        correspondence: OdfModel.GrammarApi.addText/addCDATA decide from (check, element) alone: the same answer for every string."""
+        chk, V, Element = self.chk, self.V, self.Element
+        Q = V.G.elems.items
+        strings = text_strings(chk.rng)
+        ans = self.model_text
+        ncalls = 0
+        routes = (('addText', True), ('addCDATA', True), ('text=', True), ('cdata=', True), ('addText', False), ('addCDATA', False))
+        for e in self.live:
+            if self.first_text[e] is None:
+                continue
+            want = V.S[e]['text']
+            base = dict(zip(('addText', 'addCDATA'), self.first_text[e]))
+            m4 = ans[4 * e:4 * e + 4]
+            model = {('addText', True): m4[0], ('addCDATA', True): m4[1], ('text=', True): m4[0], ('cdata=', True): m4[1],
+                     ('addText', False): m4[2], ('addCDATA', False): m4[3]}
+            for label, s in strings:
+                ignorable = all(c in XML_WS for c in s)
+                for route, check in routes:
+                    o, nodes = text_string_call(Element, Q[e], route, check, s)
+                    ncalls += 1
+                    kind = 3 if route in ('addText', 'text=') else 4
+                    kept = nodes == [(kind, s)] or (s == u'' and nodes == [])
+                    # the protocol's answer: ok = returned and the string is what the element holds now
+                    r = o if o != 'ok' else ('ok' if kept else 'err NoNode')
+                    chk.corr()
+                    if r != model[(route, check)]:
+                        chk.corr_diff({'op': 'text-string', 'element': V.EN[e], 'route': route, 'check_grammar': check, 'codepoints': [ord(c) for c in s]},
+                                      r, model[(route, check)], 'addText/addCDATA/text=/cdata= with the string %s' % label)
+                    case = {'op': 'text-string', 'element': V.EN[e], 'route': route, 'check_grammar': check, 'codepoints': [ord(c) for c in s], 'string': label}
+                    if not check:
+                        if r != 'ok':
+                            chk.count('text_string_unchecked_not_kept')
+                            if self.cap('text-string-unchecked'):
+                                chk.fail('unchecked:text-string:%s' % V.EN[e], case,
+                                         '%s(%s, check_grammar=False) on <%s>: %s, the element holds %r afterwards' % (route, label, V.EN[e], o, nodes))
+                        continue
+                    if ignorable:
+                        fine = (o == 'err IllegalText' and not nodes) or (o == 'ok' and (kept or not nodes)) if not want else (o == 'ok' and kept)
+                    else:
+                        fine = (o == 'ok' and kept) if want else (o == 'err IllegalText' and not nodes)
+                    if fine:
+                        continue
+                    b = base[{'text=': 'addText', 'cdata=': 'addCDATA'}.get(route, route)]
+                    if o == b and ((o == 'ok' and kept) or (o != 'ok' and not nodes)):
+                        # the same outcome as for the string 'x': a difference of the element's row, judged by the text() sweep
+                        chk.count('text_string_row_difference_judged_by_text_sweep')
+                        continue
+                    chk.count('text_decision_depends_on_string')
+                    if self.cap('text-string'):
+                        chk.fail('text-string:%s' % V.EN[e], case,
+                                 '%s(%s) on <%s>: %s, the element holds %s afterwards; the schema gives <%s> %s, and %s; with the string \'x\' the same call: %s' % (
+                                     route, label, V.EN[e], {'ok': 'accepted'}.get(o, o), nodes or 'nothing', V.EN[e],
+                                     'character data' if want else 'no character data',
+                                     'the string is XML white space only' if ignorable else 'the string has characters that are not XML white space (character data to the schema)', b))
+            chk.case(('text-strings', e), nontrivial=V.S[e]['elem'],
+                     sample={'element': V.EN[e], 'strings': len(strings), 'schema_text': want} if e % 191 == 0 else None)
+        chk.count('text_string_calls', ncalls)
+        chk.count('text_strings_per_element', len(strings))
 
     # ---- constructor
     def constructors(self):
@@ -1383,6 +1622,7 @@ def load_sample_packages():
 
 SLICES = ['OdfModel.Props.C06.S%02d' % i for i in range(16)]
 HIST = ['OdfModel.Props.C06.History']          # histories on one parent (model: OdfModel/GrammarHist.lean)
+VALUES = ['OdfModel.Props.C06.Values']       # the value / the text as arguments (model: OdfModel/GrammarValues.lean)
 AUX = ['OdfModel.Props.C06.Defs', 'OdfModel.Props.C06.Schema', 'OdfModel.Props.C06.Kw', 'OdfModel.Props.C06.Fuel']
 
 
@@ -1391,7 +1631,9 @@ def run(chk, replay=None):
                 'factories (addElement on an empty and on a filled parent, checks on and off), every (element, keyword) pair, '
                 'every element x {addText, addCDATA}, every constructor with each single required attribute left out, every '
                 'factory; histories of calls on one parent (the child asked for is already there, unchecked: only/first/last child, via '
-                'check_grammar=False / appendChild / insertBefore / load) for every pair; non-trivial = the element is declared by the shipped schemas')
+                'check_grammar=False / appendChild / insertBefore / load) for every pair; refused keywords again with values that are no '
+                'strings (None, empty, 0, False, numbers, bytes, list, element) through setAttribute / **kwargs / attributes= / factory; '
+                'every element x strings of Unicode spaces, XML white space, invisible characters and mixtures through addText / addCDATA / text= / cdata=; non-trivial = the element is declared by the shipped schemas')
     try:
         G = tg.translate(common.REPO)
     except common.InfraError:
@@ -1421,7 +1663,7 @@ def run(chk, replay=None):
         drv = chk.driver('drv_grammar')
         V = load_model(chk, G, drv)
         return replay_one(chk, V, Sweep(chk, V, drv), replay)
-    chk.prove(modules=['OdfModel.Props.C06'] + SLICES + AUX + HIST, drivers=['drv_grammar'])
+    chk.prove(modules=['OdfModel.Props.C06'] + SLICES + AUX + HIST + VALUES, drivers=['drv_grammar'])
     drv = chk.driver('drv_grammar')
     V = load_model(chk, G, drv)
     check_second_opinion(chk, V)
@@ -1435,7 +1677,8 @@ def run(chk, replay=None):
     sw.constructible()
     import traceback
     for name, phase in (('children', sw.children), ('text', sw.text), ('attrs', sw.attributes), ('ctor', sw.constructors),
-                        ('ctorkw', sw.constructor_keywords), ('factories', sw.factories), ('islands', sw.islands), ('same_parent', sw.same_parent),
+                        ('ctorkw', sw.constructor_keywords), ('attr_values', sw.attr_values), ('text_strings', sw.text_strings),
+                        ('factories', sw.factories), ('islands', sw.islands), ('same_parent', sw.same_parent),
                         ('loaded_parents', sw.loaded_parents), ('after_load', sw.after_load)):
         t = time.time()
         try:
@@ -1537,6 +1780,46 @@ def replay_one(chk, V, sw, rp):
                 print(line)
             print('replay: childNodes afterwards: %s' % sw.kids_of(parent))
             return 1 if bad else 0
+        if op == 'setAttribute-value':
+            e = eid[inp['element']]; kw = inp['keyword']; route = inp.get('route', 'setAttribute')
+            fac = None
+            if route == 'factory':
+                mn, fn = [(r[0], r[1]) for r in V.G.factories if r[2] == e][0]
+                fac = getattr(importlib.import_module('odf.' + mn), fn)
+            vals = dict(odd_values(Element, Q, V.EN))
+            if inp['value'] not in vals:
+                print('replay: value %r is not one of the values of this version of the check' % inp['value']); return 2
+            b, _ = attr_value_call(Element, Q[e], route, kw, u'1', fac)
+            o, left = attr_value_call(Element, Q[e], route, kw, vals[inp['value']], fac)
+            sat = V.S[e]['at']
+            want = (-1 in sat) or any(V.KN[V.G.attr_kw[a]] == kw for a in sat if a != -1)
+            words = {'A': 'AttributeError', 'ok': 'accepted'}
+            print('replay: %s on <%s>, keyword %r: with the value u\'1\': %s; with the value %s: %s%s; the schema %s an attribute of that keyword there' % (
+                route, inp['element'], kw, words.get(b, b), inp['value'], words.get(o, o), ' (left behind: %r)' % (left,) if left else '',
+                'permits' if want else 'does not permit'))
+            return 1 if (b == 'A' and (o != 'A' or left)) else 0
+        if op == 'text-string':
+            e = eid[inp['element']]; route = inp['route']; check = inp.get('check_grammar', True)
+            s = u''.join(chr(c) for c in inp['codepoints'])
+            o, nodes = text_string_call(Element, Q[e], route, check, s)
+            kind = 3 if route in ('addText', 'text=') else 4
+            kept = nodes == [(kind, s)] or (s == u'' and nodes == [])
+            want = V.S[e]['text']
+            ignorable = all(c in XML_WS for c in s)
+            bx, _ = text_string_call(Element, Q[e], route, check, u'x')
+            print('replay: %s(%s)%s on <%s>: %s, the element holds %s afterwards; the schema gives <%s> %s; the string is %s; with \'x\': %s' % (
+                route, ' '.join('U+%04X' % c for c in inp['codepoints']) or 'the empty string', '' if check else ' check_grammar=False', inp['element'],
+                {'ok': 'accepted'}.get(o, o), nodes or 'nothing', inp['element'], 'character data' if want else 'no character data',
+                'XML white space only' if ignorable else 'character data', {'ok': 'accepted'}.get(bx, bx)))
+            if not check:
+                return 0 if (o == 'ok' and kept) else 1
+            if ignorable and not want:
+                fine = (o == 'err IllegalText' and not nodes) or (o == 'ok' and (kept or not nodes))
+            else:
+                fine = (o == 'ok' and kept) if want else (o == 'err IllegalText' and not nodes)
+            if not fine and o == bx and ((o == 'ok' and kept) or (o != 'ok' and not nodes)):
+                print('replay: the same outcome as for the string \'x\': a difference of the element\'s row, not of the string'); return 0
+            return 0 if fine else 1
         if op == 'addElement' and ('parent_qname' in inp or 'child_qname' in inp):
             pq = tuple(inp['parent_qname']) if 'parent_qname' in inp else Q[eid[inp['parent']]]
             cq = tuple(inp['child_qname']) if 'child_qname' in inp else Q[eid[inp['child']]]
